@@ -17,14 +17,15 @@ SHRINK_KEY = "ops"
 SHARD_SIZE = 30
 RULE = ("cases of 1-4 callers (plain threads and coroutines of the event loop), each with a program of 1-4 hooked "
         "read/recv/write/send calls on 1-3 descriptors of its own (pipe ends, socketpair ends with and "
-        "without a closed peer or a receive time limit, a descriptor number that is not open), payloads that differ "
+        "without a closed peer or a receive time limit, a descriptor number that is not open, a memfd sealed against "
+        "writing whose writes complete with exactly -1 = -EPERM), errno set to a sentinel before every call, payloads that differ "
         "per descriptor, and a script that starts the callers, feeds descriptors and releases threads "
         "parked between slot registration and submission in a random order; plus the scenarios of the two recorded "
         "findings; a case is non-trivial when at least two callers had calls in flight on different descriptors or a "
         "call ended with an error completion; distinct = distinct (descriptors, programs, script)")
 TRUSTED = ["Linux io_uring (SQPOLL) as the completion source: completion order is whatever the kernel does, it is not "
            "observed; the model takes it as an input and the theorem covers every order",
-           "kernel results of read/recv/write/send on pipe ends, socketpair ends and a closed descriptor number as "
+           "kernel results of read/recv/write/send on pipe ends, socketpair ends, a write-sealed empty memfd and a closed descriptor number as "
            "specified by Net/Uring.v (classify/kernel); validated only through these runs",
            "hook point io_uring_between_submit_and_register (feature verif) to park a thread between the two steps "
            "of a submission; observer point event_loop_resume to count dispatched completions"]
@@ -35,13 +36,15 @@ ASSUMPTIONS = ["tokens of callers that have calls pending at the same time are d
                "reads on descriptors whose peer stays open are fed in chunks aligned with the reads, so results do not "
                "depend on timing (the theorem does not need this, the comparison with the real run does)"]
 
-KIND = {"pipe_r": "KPipeR", "pipe_w": "KPipeW", "sock": "KSock", "closed": "KClosed"}
+KIND = {"pipe_r": "KPipeR", "pipe_w": "KPipeW", "sock": "KSock", "closed": "KClosed", "sealed": "KSealed"}
 OP = {"read": "ORead", "recv": "ORecv", "write": "OWrite", "send": "OSend"}
 
 
 def classify(kind, op):
     if kind == "closed":
         return "err"
+    if kind == "sealed":
+        return "r" if op == "read" else "err"
     if kind == "pipe_r":
         return {"read": "r", "write": "err"}.get(op, "err")
     if kind == "pipe_w":
@@ -63,8 +66,8 @@ def gen_normal(rng, big=False):
         mine = []
         for _ in range(rng.randint(1, 3)):
             r = len(res)
-            kind = rng.choices(["pipe_r", "sock", "pipe_w", "closed"], [38, 34, 16, 0 if co else 12])[0]
-            spec = {"kind": kind, "pre": 0, "eof": False, "limit_ms": 0}
+            kind = rng.choices(["pipe_r", "sock", "pipe_w", "closed", "sealed"], [34, 30, 14, 0 if co else 10, 14])[0]
+            spec = {"kind": kind, "pre": 0, "eof": kind == "sealed", "limit_ms": 0}
             if kind in ("pipe_w", "sock") and rng.random() < 0.25:
                 spec["eof"] = True
             if kind == "sock" and not co and rng.random() < 0.3:
@@ -85,6 +88,8 @@ def gen_normal(rng, big=False):
                 op = "read"
             elif kind == "pipe_w":
                 op = "write"
+            elif kind == "sealed":
+                op = rng.choice(["write", "write", "write", "read"])
             else:
                 op = rng.choice(["read", "recv", "recv", "write", "send"])
             ln = rng.choice([1, 2, 3, 4, 5, 8, 13, 32])
@@ -96,7 +101,7 @@ def gen_normal(rng, big=False):
         for r in mine:
             spec = res[r]
             if spec["kind"] not in ("pipe_r", "sock"):
-                continue
+                continue          # (a sealed memfd is empty: its reads are at end of stream at once)
             lens = reads[r]
             if spec["eof"]:
                 # closed peer: everything is preloaded; reads may come up short and hit end of stream
@@ -178,7 +183,10 @@ def gen_busy(rng):
         lens = [rng.choice([1, 2, 3]) for _ in range(ncalls)]
         res.append({"kind": rng.choice(["pipe_r", "sock"]), "pre": sum(lens) + rng.randint(0, 2), "eof": False, "limit_ms": 0})
         r_in = len(res) - 1
-        res.append({"kind": "pipe_w", "pre": 0, "eof": rng.random() < 0.3, "limit_ms": 0})
+        if rng.random() < 0.3:
+            res.append({"kind": "sealed", "pre": 0, "eof": True, "limit_ms": 0})
+        else:
+            res.append({"kind": "pipe_w", "pre": 0, "eof": rng.random() < 0.3, "limit_ms": 0})
         r_out = len(res) - 1
         prog = []
         for ln in lens:
@@ -373,7 +381,7 @@ LEVEL_TEXT = ("Unbounded theorems about the Gallina model of the io_uring call p
               "normally, every call handed back the answer of its own request - the next bytes of its own descriptor's "
               "stream, its own error with the matching errno - and no byte a descriptor delivered is missing), "
               "C27_call_spec (what the oracle accepts for one call), C27_errno_mapping (negative completion -> -1 with "
-              "errno = -value), and the refutation witnesses of the two recorded findings, which the theorem excludes "
+              "errno = -value, the completion value -1 = -EPERM included), and the refutation witnesses of the two recorded findings, which the theorem excludes "
               "through no_defect (coroutine read on a socket with a receive time limit; coroutine call on a descriptor "
               "number that is not open). The model is tied to the real runtime built with the io_uring feature on this "
               "kernel: the same cases run as real threads and real coroutines of a real EventLoops making hooked "
